@@ -184,12 +184,14 @@ pub fn gen_field(rng: &mut Rng, name: &str, depth: usize) -> Field {
     if CORE_ONLY.load(std::sync::atomic::Ordering::Relaxed) {
         let nullable = rng.chance(1, 2);
         let leaf = depth == 0 || rng.chance(2, 5);
-        let dt = if leaf { match rng.below(20) { 0 | 1 => T::Boolean, 2 => T::Int8, 3 => T::Int16, 4 => T::Int32, 5 => T::Int64, 6 => T::UInt8, 7 => T::UInt16, 8 => T::UInt32, 9 => T::UInt64, 10 | 11 => T::Utf8, 12 => T::LargeUtf8,
+        let dt = if leaf { match rng.below(22) { 0 | 1 => T::Boolean, 2 => T::Int8, 3 => T::Int16, 4 => T::Int32, 5 => T::Int64, 6 => T::UInt8, 7 => T::UInt16, 8 => T::UInt32, 9 => T::UInt64, 10 | 11 => T::Utf8, 12 => T::LargeUtf8,
             // primitive kinds added to the builder model: same-width floats and the integer presentation of temporal columns
             13 => T::Float32, 14 => T::Float64, 15 => if rng.chance(1, 2) { T::Date32 } else { T::Date64 },
             16 => match rng.below(4) { 0 => T::Time32(TimeUnit::Second), 1 => T::Time32(TimeUnit::Millisecond), 2 => T::Time64(TimeUnit::Microsecond), _ => T::Time64(TimeUnit::Nanosecond) },
             17 => T::Timestamp(*rng.pick(&[TimeUnit::Second, TimeUnit::Millisecond, TimeUnit::Microsecond, TimeUnit::Nanosecond]), if rng.chance(1, 2) { None } else { Some("UTC".to_string()) }),
             18 => T::Duration(*rng.pick(&[TimeUnit::Second, TimeUnit::Millisecond, TimeUnit::Microsecond, TimeUnit::Nanosecond])),
+            // binary columns (bytes, or a sequence / tuple of u8): in the builder model since the BinaryBuilder was added
+            19 => T::Binary, 20 => T::LargeBinary,
             _ => T::LargeUtf8 } }
             else { match rng.below(4) { 0 | 1 => T::Struct({ let n = 1 + rng.below(3); let mut names: Vec<&str> = NAMES.to_vec(); rng.shuffle(&mut names); (0..n).map(|i| gen_field(rng, names[i], depth - 1)).collect() }), 2 => T::List(Box::new(gen_field(rng, "element", depth - 1))), _ => T::LargeList(Box::new(gen_field(rng, "element", depth - 1))) } };
         return mk(name, dt, nullable);
